@@ -54,7 +54,7 @@ RULE = ("exhaustive: every history of length <= 4 (quick) / <= 5 (thorough) over
         "tag edits, 12% calls meant to fail; 12% of histories start with the version unknown. Non-trivial: at least "
         "one removal/disconnect/rename in a history with at least two additions. Distinct by case hash.")
 
-PROF = H.profile(p_fail=0.12)
+PROF = H.profile(p_fail=0.12, copy=0.06, rm_copy=0.3, rename_star=0.1, ops={"dropid": 5})
 CASE_TIMEOUT = 60
 
 COLLS = dict(lib.BACKREF_COLLS)
